@@ -25,6 +25,13 @@
    must< R > at the position of a cursor reached from the start) ;
    rematch< R, S... > and minus< M, S > against the direct formalisation of their prose (EquivSpanSpec.v: the
    span-restricted evaluation), soundness and completeness ;
+   eolf == sor< eof, eol > (every eol policy) ; everything == until< eof, any > ;
+   ranges< C1, D1, ..., [E] > == sor< range< C1, D1 >, ..., [one< E >] > (char decoder, any number of ranges) ;
+   shebang (= seq< string< '#', '!' >, until< eolf > >) == if_must< string< '#', '!' >, until< eolf > > (until< eolf > cannot fail) ;
+   list_must< R, S > == seq< R, star< if_must< S, R > > > ;
+   CONGRUENCE: every expansion holds in its uniform form (fixed fuel overhead, C09_expansions_uniform), uniform
+   equivalence implies obs_equiv, is an equivalence relation, and is preserved by every head that does not name its
+   sub-rule (C09_congruence) — documented expansions may be applied inside any rule ;
    obs_equiv is an equivalence relation ; plus the generic lemmas: the verdict of any
    rule is independent of modes / families / fuel (C09_modes_irrelevant) and control-enabled nodes are
    transparent (hook visibility does not influence outcomes); the verified table bisimulation
@@ -34,8 +41,10 @@
    NOT YET PROVED in Coq (they stay covered by the twin oracle of lib/props_c09.py, which runs the real
    library on the rule and on the expansion produced from the reference text): list_tail< R, S, P > first clause,
    must< R... > for several R against seq< sor< R, raise< R > >... > (follows the single-rule statement only up to
-   positions), eol, eolf, everything, string == seq< one... >, ranges == sor< range..., one >, shebang, contrib rules. *)
-From PegtlV Require Import Base Decode Grammar Engine EngineFacts AtomFacts Mono Equiv EquivFacts EquivEval EquivHeads EquivTable EquivBisim EquivAlias EquivHeads2 EquivTable2 EquivMust EquivSpanSpec EquivSpan.
+   positions), eol == sor< one< '\n' >, string< '\r', '\n' > >, string< C... > == seq< one< C >... > (true only for inputs whose
+   elements are bytes: the model's input alphabet is N, and one<> compares decoded chars where string<> compares raw bytes),
+   ranges for the multi-byte decoders, contrib rules. *)
+From PegtlV Require Import Base Decode Grammar Engine EngineFacts AtomFacts Mono Equiv EquivFacts EquivEval EquivHeads EquivTable EquivBisim EquivAlias EquivHeads2 EquivTable2 EquivMust EquivSpanSpec EquivSpan EquivTableU EquivCong EquivAtoms EquivAtoms2 EquivShebang EquivAll.
 From PegtlV.gen Require Import AliasC09_gen AliasC09Claims_gen.
 
 (* the verdict of any rule does not depend on apply mode, rewind mode, action/control family, or fuel *)
@@ -293,6 +302,96 @@ Theorem C09_minus_complete :
     (matches_all_of G C span s -> forall d, exists f evs, eval G C f d r1 c = Res Fail c evs).
 Proof. exact minus_complete. Qed.
 Print Assumptions C09_minus_complete.
+
+(* ---------- atoms ---------- *)
+(* eolf  ==  sor< eof, eol >, for every eol policy *)
+Theorem C09_eolf :
+  forall G C, noact_cfg C -> plain_table G ->
+  forall r1 r2 e l, node G r1 HEolf [] -> node G r2 HSor [e; l] -> node G e HEof [] -> node G l HEol [] -> obs_equiv G C r1 r2.
+Proof. exact eolf_table. Qed.
+Print Assumptions C09_eolf.
+
+(* everything  ==  until< eof, any >  (the fuel the expansion needs grows with the input: not a uniform equivalence) *)
+Theorem C09_everything :
+  forall G C, noact_cfg C -> plain_table G ->
+  forall r1 r2 e a, node G r1 HEverything [] -> node G r2 HUntil2 [e; a] -> node G e HEof [] -> node G a (HAny PkChar) [] -> obs_equiv G C r1 r2.
+Proof. exact everything_table. Qed.
+Print Assumptions C09_everything.
+
+(* ranges< C1, D1, C2, D2, ... [, E] >  ==  sor< range< C1, D1 >, range< C2, D2 >, ... [, one< E >] >   (ascii / char decoder;
+   ranges_alts relates the value list of ranges<> to the alternatives of the sor) *)
+Theorem C09_ranges :
+  forall G C, noact_cfg C -> plain_table G ->
+  forall r1 r2 cs qs, node G r1 (HRanges PkChar cs) [] -> node G r2 HSor qs -> ranges_alts G cs qs -> obs_equiv G C r1 r2.
+Proof. exact ranges_table. Qed.
+Print Assumptions C09_ranges.
+
+(* shebang  (rule_t seq< string< '#', '!' >, until< eolf > >)  ==  if_must< string< '#', '!' >, until< eolf > >;  a, a2: the internal
+   and the public node of the first rule (same atom head h) *)
+Theorem C09_shebang :
+  forall G C, noact_cfg C -> plain_table G -> table_wf G ->
+  forall r1 r2 a u el a2 m u2 el2 h,
+    node G r1 HSeq [a; u] -> node G u HUntil1 [el] -> node G el HEolf [] ->
+    node G r2 (HIfMust false) [a2; m] -> node G m HMust [u2] -> node G u2 HUntil1 [el2] -> node G el2 HEolf [] ->
+    node G a h [] -> node G a2 h [] -> names_sub h = false ->
+    obs_equiv G C r1 r2.
+Proof. exact shebang_table. Qed.
+Print Assumptions C09_shebang.
+
+(* ---------- uniform equivalence and congruence: expansions may be applied inside any rule ---------- *)
+Theorem C09_uniform_meaning :
+  forall G C r1 r2, uequiv G C r1 r2 -> obs_equiv G C r1 r2.
+Proof. exact uequiv_obs_equiv. Qed.
+Print Assumptions C09_uniform_meaning.
+Theorem C09_uniform_refl :
+  forall G C, noact_cfg C -> plain_table G -> forall r, uequiv G C r r.
+Proof. exact uequiv_refl. Qed.
+Print Assumptions C09_uniform_refl.
+Theorem C09_uniform_sym :
+  forall G C r1 r2, uequiv G C r1 r2 -> uequiv G C r2 r1.
+Proof. exact uequiv_sym. Qed.
+Print Assumptions C09_uniform_sym.
+Theorem C09_uniform_trans :
+  forall G C r1 r2 r3, uequiv G C r1 r2 -> uequiv G C r2 r3 -> uequiv G C r1 r3.
+Proof. exact uequiv_trans. Qed.
+Print Assumptions C09_uniform_trans.
+(* two nodes with the same head (any head that does not name its sub-rule: all but must / raise / try_catch_raise_nested)
+   over pairwise equivalent sub-rules are equivalent *)
+Theorem C09_congruence :
+  forall G C, noact_cfg C -> plain_table G ->
+  forall p p' h subs1 subs2,
+    node G p h subs1 -> node G p' h subs2 -> names_sub h = false -> Forall2 (uequiv G C) subs1 subs2 -> uequiv G C p p'.
+Proof. exact uequiv_cong. Qed.
+Print Assumptions C09_congruence.
+(* every expansion above (but everything) in uniform form, in one statement *)
+Theorem C09_expansions_uniform :
+  forall G C, noact_cfg C -> plain_table G -> table_wf G -> expansions_uniform_stmt G C.
+Proof. exact expansions_uniform. Qed.
+Print Assumptions C09_expansions_uniform.
+
+(* list_must< R, S >  (rule_t seq< R, star< S, must< R > > >)  ==  seq< R, star< if_must< S, R > > >:  by congruence *)
+Theorem C09_list_must :
+  forall G C, noact_cfg C -> plain_table G -> table_wf G ->
+  forall r1 st1 sq r2 st2 im r s m,
+    node G r1 HSeq [r; st1] -> node G st1 HStarPartial [sq] -> node G sq HSeq [s; m] ->
+    node G r2 HSeq [r; st2] -> node G st2 HStarPartial [im] -> node G im (HIfMust false) [s; m] ->
+    uequiv G C r1 r2.
+Proof. exact list_must_utable. Qed.
+Print Assumptions C09_list_must.
+
+(* a must< S > whose S cannot fail locally is S; then if_must< R, S > == seq< R, S > *)
+Theorem C09_must_transparent :
+  forall G C, noact_cfg C -> plain_table G ->
+  forall m u, node G m HMust [u] -> (forall k, cnofail (ecl G C k u)) -> uequiv G C m u.
+Proof. exact must_transparent. Qed.
+Print Assumptions C09_must_transparent.
+Theorem C09_if_must_nofail :
+  forall G C, noact_cfg C -> plain_table G -> table_wf G ->
+  forall r1 r2 a u a2 m u2,
+    node G r1 HSeq [a; u] -> node G r2 (HIfMust false) [a2; m] -> node G m HMust [u2] ->
+    uequiv G C a a2 -> uequiv G C u u2 -> (forall k, cnofail (ecl G C k u2)) -> uequiv G C r1 r2.
+Proof. exact if_must_nofail_utable. Qed.
+Print Assumptions C09_if_must_nofail.
 
 (* the verified table bisimulation: structural equality up to hook visibility, or one of the expansions above at the root *)
 Theorem C09_table_equiv_sound :
